@@ -1,6 +1,7 @@
 import Model.Network
 import Proofs.VJP
 import Proofs.SkipWalk
+import Proofs.SkipLinks
 
 /-!
 # C16 — skip connections combine source and target inputs as configured
@@ -401,5 +402,315 @@ theorem residual_conv_network_gradient {c0 h0 w0 f kh0 kw0 h w kh1 kw1 f2 kh2 kw
       ℓ g (by rw [hF]; exact hg)
   rw [funext hF] at this
   exact this
+
+/-! ### any number of additive skip connections at once -/
+
+open SkipDag in
+/-- the values of a stack of layers with a skip table `S` (`S i = some s`: layer `i` adds the input of layer
+    `s ≤ i` to its own): `U 0 = x`, `U (i+1) = f i (U i + U s)` -/
+theorem skip_values_spec {ι : Type} [Fintype ι] (N : SkipDag.Net ι) (x : VJP.V ι) :
+    U N 0 x = x ∧ ∀ i, U N (i + 1) x = N.f i (U N i x + match N.S i with
+      | some s => if s ≤ i then U N s x else 0
+      | none => 0) := by
+  refine ⟨by rw [U], fun i => ?_⟩
+  rw [U_succ]
+  rfl
+
+open SkipDag VJP in
+/-- **the reverse sweep with any skip table** (chains of connections, several connections out of one source,
+    nested / overlapping connections, a connection from a layer to itself): walking the layers from the last
+    to the first, computing for each the gradient `δ i` with respect to the input it processed and handing on
+    `δ i + Σ { δ t | t a target of i }`, ends in the transposed Jacobian of the whole function — for every
+    depth and every table with sources not after their targets -/
+theorem skip_table_sweep_is_derivative {ι : Type} [Fintype ι] (N : SkipDag.Net ι) (tg : Nat → List Nat) (x : V ι) (n : Nat)
+    (hok : ∀ i, i < n → IsVJP (N.f i) (P N i x) (N.b i (P N i x)))
+    (hS : ∀ i s, N.S i = some s → s ≤ i)
+    (htg : ∀ s, (tg s).Nodup ∧ ∀ t, t ∈ tg s ↔ (t < n ∧ N.S t = some s)) :
+    IsVJP (U N n) x (fun g => (sweep N tg x n g n).1) :=
+  sweep_isVJP N tg x n hok hS htg
+
+open LayerChain SkipWalk SkipNet VJP in
+/-- **a network with any table of additive skip connections among layers of one shape, on the model's own
+    `Network.forward` / `Network.backward` folds** (`head`, then the stretch `body` with the table `tbl` of
+    `(target, source)` pairs relative to the stretch — distinct targets, sources not after their targets —,
+    then `tail`; every layer a link of the chain theorem): forward ends in
+    `tail (U body.length (head x))`; backward — which reads the sorted targets of every source from the inverted
+    table and adds their processed-input gradients — hands back the gradient of the objective -/
+theorem any_skip_table_network_gradient {a m c : Idx} {ea : Enc a} {em : Enc m} {ec : Enc c}
+    (head : Chain a ea m em) (body : List (Link m em)) (tbl : List (Nat × Nat)) (tail : Chain m em c ec)
+    (n : Network ℝ) (hn : IsDagNet head body tbl tail n) (he : EncAdd em) (x : V a.T)
+    (hrh : Real head x)
+    (hrb : ∀ j (lk : Link m em), body[j]? = some lk → lk.Real (SkipDag.P (dagNet body tbl) j ((gnet head).fwd x)))
+    (hrt : Real tail (SkipDag.U (dagNet body tbl) body.length ((gnet head).fwd x)))
+    (hh : (gnet head).Ok x)
+    (hb : ∀ j (lk : Link m em), body[j]? = some lk →
+      IsVJP lk.f (SkipDag.P (dagNet body tbl) j ((gnet head).fwd x)) (lk.b (SkipDag.P (dagNet body tbl) j ((gnet head).fwd x))))
+    (ht : (gnet tail).Ok (SkipDag.U (dagNet body tbl) body.length ((gnet head).fwd x)))
+    (ℓ : V c.T → ℝ) (g : V c.T) (hg : IsGrad ℓ (dagFn head body tbl tail x) g) :
+    ∃ t ws bs gs γ,
+      n.forward (ea x) = .ok t ∧ t.act.getLast? = some (ec (dagFn head body tbl tail x)) ∧
+      n.backward (ec g) t = .ok (ws, bs, gs) ∧ gs.getLast? = some (ea γ) ∧
+      IsGrad (ℓ ∘ dagFn head body tbl tail) x γ ∧
+      ∀ r (lk : Link m em), r < body.length → body[body.length - (r + 1)]? = some lk →
+        ws[(LayerChain.layers tail).length + r]? =
+          some (lk.wg (SkipDag.P (dagNet body tbl) (body.length - (r + 1)) ((gnet head).fwd x))
+            (handedTo head body tbl tail x g r)).1 ∧
+        bs[(LayerChain.layers tail).length + r]? =
+          some (lk.wg (SkipDag.P (dagNet body tbl) (body.length - (r + 1)) ((gnet head).fwd x))
+            (handedTo head body tbl tail x g r)).2 :=
+  dag_network_gradient head body tbl tail n hn he x hrh hrb hrt hh hb ht ℓ g hg
+
+open LayerChain SkipWalk SkipNet VJP in
+/-- **every weight gradient inside a skip table is the exact derivative**: for the layer at position `c'` of the
+    stretch with parameters `θ₀` (`lay θ` = its output on the input it processes, `bθ` its parameter-VJP), the
+    network output as a function of `θ` has, composed with the objective, the gradient `bθ` of the gradient the
+    reverse walk hands to that layer — whatever the table of connections around and across it -/
+theorem any_skip_table_parameter_gradient {a m c : Idx} {ea : Enc a} {em : Enc m} {ec : Enc c} {π : Type} [Fintype π]
+    (head : Chain a ea m em) (body : List (Link m em)) (tbl : List (Nat × Nat)) (tail : Chain m em c ec)
+    (n : Network ℝ) (hn : IsDagNet head body tbl tail n) (x : V a.T)
+    (hb : ∀ j (lk : Link m em), body[j]? = some lk →
+      IsVJP lk.f (SkipDag.P (dagNet body tbl) j ((gnet head).fwd x)) (lk.b (SkipDag.P (dagNet body tbl) j ((gnet head).fwd x))))
+    (ht : (gnet tail).Ok (SkipDag.U (dagNet body tbl) body.length ((gnet head).fwd x)))
+    (c' : Nat) (hc : c' < body.length) (lk : Link m em) (hlk : body[c']? = some lk)
+    (lay : V π → V m.T) (bθ : V m.T → V π) (θ₀ : V π)
+    (hlay : lay θ₀ = lk.f (SkipDag.P (dagNet body tbl) c' ((gnet head).fwd x))) (hθ : IsVJP lay θ₀ bθ)
+    (ℓ : V c.T → ℝ) (g : V c.T) (hg : IsGrad ℓ (dagFn head body tbl tail x) g) :
+    dagParamFn head body tbl tail c' lay bθ x θ₀ = dagFn head body tbl tail x ∧
+    IsGrad (ℓ ∘ dagParamFn head body tbl tail c' lay bθ x) θ₀
+      (bθ (handedTo head body tbl tail x g (body.length - (c' + 1)))) :=
+  dag_parameter_gradient head body tbl tail n hn x hb ht c' hc lk hlk lay bθ θ₀ hlay hθ ℓ g hg
+
+open SkipDagP in
+/-- what "the network as a function of one layer's parameters" means: the input is fixed, the layer at position
+    `c` outputs `lay θ`, every other layer computes what it computed before on what it now receives -/
+theorem parametrised_values_spec {α ι : Type} [Fintype α] [Fintype ι] (N : SkipDag.Net ι) (x : VJP.V ι) (c : Nat)
+    (lay : VJP.V α → VJP.V ι) (bθ : VJP.V ι → VJP.V α) (θ : VJP.V α) :
+    U (paramNet N x c lay bθ) 0 θ = x ∧
+    ∀ i, U (paramNet N x c lay bθ) (i + 1) θ = if i = c then lay θ else N.f i (P (paramNet N x c lay bθ) i θ) :=
+  param_U_spec N x c lay bθ θ
+
+open LayerChain SkipWalk SkipNet VJP ChainLinks DenseStack DenseBridge in
+/-- **instance: a residual perceptron** — a dense stack `s1`, then any number of square dense layers `blocks`
+    with ANY table of additive skip connections among them, then a dense stack `s3` -/
+theorem resnet_mlp_gradient {n0 m k : ℕ} (n : Network ℝ) (s1 : Stack n0 m)
+    (blocks : List (Act × V (Fin m × Fin m) × Vec m)) (tbl : List (Nat × Nat)) (s3 : Stack m k)
+    (hl : n.layers = s1.layers ++ (blocks.map denseLink).map (·.l) ++ s3.layers)
+    (hc : n.connect = tbl.map (shift s1.layers.length))
+    (hacc : n.skipaccumulation = .add) (hlb : n.loopbacks = [])
+    (hkeys : (tbl.map Prod.fst).Nodup) (hbd : ∀ e ∈ tbl, e.2 ≤ e.1 ∧ e.1 < blocks.length)
+    (hv1 : s1.Valid) (hvb : ∀ q ∈ blocks, q.1 ≠ .softmax) (hm : 0 < m) (hv3 : s3.Valid) (x : Vec n0)
+    (ℓ : Vec k → ℝ) (g : Vec k) :
+    let N := dagNet (blocks.map denseLink) tbl
+    let F := fun z : Vec n0 => s3.net.fwd (SkipDag.U N blocks.length (s1.net.fwd z))
+    s1.NoKinks x →
+    (∀ (j : Nat) q, blocks[j]? = some q → ∀ i, NoKink q.1 (densePre q.2.1 q.2.2 (SkipDag.P N j (s1.net.fwd x)) i)) →
+    s3.NoKinks (SkipDag.U N blocks.length (s1.net.fwd x)) →
+    IsGrad ℓ (F x) g →
+    ∃ t ws bs gs γ,
+      n.forward (vecT x) = .ok t ∧ t.act.getLast? = some (vecT (F x)) ∧
+      n.backward (vecT g) t = .ok (ws, bs, gs) ∧ gs.getLast? = some (vecT γ) ∧ IsGrad (ℓ ∘ F) x γ := by
+  intro N F hk1 hkb hk3 hg
+  have hy : (gnet (stackChain s1)).fwd x = s1.net.fwd x := stack_gnet_fwd s1 x
+  have hF : ∀ z, dagFn (stackChain s1) (blocks.map denseLink) tbl (stackChain s3) z = F z := by
+    intro z
+    simp only [dagFn, stack_gnet_fwd, F, N, List.length_map]
+  have hnet : IsDagNet (stackChain s1) (blocks.map denseLink) tbl (stackChain s3) n := by
+    refine ⟨?_, ?_, hacc, hlb, hkeys, ?_⟩
+    · rw [hl]; simp [stackChain_layers]
+    · rw [hc]; simp [stackChain_layers]
+    · simpa using hbd
+  have hget : ∀ (j : Nat) (lk : Link (iVec m) (eVec m)), (blocks.map denseLink)[j]? = some lk → ∃ q, blocks[j]? = some q ∧ lk = denseLink q := by
+    intro j lk hlk
+    rw [List.getElem?_map] at hlk
+    cases hq : blocks[j]? with
+    | none => rw [hq] at hlk; cases hlk
+    | some q => rw [hq] at hlk; simp only [Option.map_some, Option.some.injEq] at hlk; exact ⟨q, rfl, hlk.symm⟩
+  have := dag_network_gradient (stackChain s1) (blocks.map denseLink) tbl (stackChain s3) n hnet (encAdd_vec m) x
+    (stackChain_real s1 x hv1)
+    (fun j lk hlk => by
+      obtain ⟨q, hq, rfl⟩ := hget j lk hlk
+      exact denseLink_real q (hvb q (List.mem_of_getElem? hq)) hm _)
+    (by rw [hy, List.length_map]; exact stackChain_real s3 _ hv3)
+    (stackChain_ok s1 x hv1 hk1)
+    (fun j lk hlk => by
+      obtain ⟨q, hq, rfl⟩ := hget j lk hlk
+      rw [hy]
+      exact denseLink_vjp q (hvb q (List.mem_of_getElem? hq)) _ (hkb j q hq))
+    (by rw [hy, List.length_map]; exact stackChain_ok s3 _ hv3 hk3)
+    ℓ g (by rw [hF]; exact hg)
+  rw [funext hF] at this
+  obtain ⟨t, ws, bs, gs, γ, h1, h2, h3, h4, h5, _⟩ := this
+  exact ⟨t, ws, bs, gs, γ, h1, h2, h3, h4, h5⟩
+
+open LayerChain SkipNet ChainLinks DenseStack in
+/-- non-vacuity: a chain of connections, two connections out of one source and a connection from a layer to
+    itself are one admissible table (`(target, source)`, relative to a stretch of four layers) -/
+example (q : Act × VJP.V (Fin 3 × Fin 3) × VJP.Vec 3) :
+    IsDagNet (Chain.nil (iVec 3) (eVec 3)) (List.replicate 4 (denseLink q)) [(1, 0), (2, 0), (3, 3)] (Chain.nil (iVec 3) (eVec 3))
+      { Network.new (.single 3) with
+        layers := List.replicate 4 (.dense (denseLayer q.1 q.2.1 q.2.2)),
+        connect := [(1, 0), (2, 0), (3, 3)] } := by
+  refine ⟨?_, ?_, rfl, rfl, by decide, by simp⟩
+  · simp [LayerChain.layers, denseLink, List.replicate]
+  · simp [LayerChain.layers, shift]
+
+open LayerChain SkipWalk SkipNet VJP ChainLinks DenseStack DenseBridge ConvVJP ConvBridge ConvNet Flat3 in
+/-- **instance: a residual convolutional tower** — a convolution `l0`, then any number of shape-preserving
+    convolutions `blocks` with ANY table of additive skip connections among them, then a convolution `l2`
+    (flattened) and a dense stack of any depth -/
+theorem resnet_conv_gradient {c0 h0 w0 f kh0 kw0 h w kh kw f2 kh2 kw2 h2 w2 k : ℕ} (n : Network ℝ)
+    (l0 : Conv ℝ) (a0 : Act) (K0 : V (I4 f c0 kh0 kw0)) (hl0 : IsConv l0 a0 K0 h0 w0 h w) (ha0 : a0 ≠ .softmax) (hf0 : l0.flatten = false)
+    (blocks : List (Conv ℝ × Act × V (I4 f f kh kw)))
+    (hbl : ∀ q ∈ blocks, IsConv q.1 q.2.1 q.2.2 h w h w ∧ q.2.1 ≠ .softmax ∧ q.1.flatten = false)
+    (tbl : List (Nat × Nat))
+    (l2 : Conv ℝ) (a2 : Act) (K2 : V (I4 f2 f kh2 kw2)) (hl2 : IsConv l2 a2 K2 h w h2 w2) (ha2 : a2 ≠ .softmax) (hf2 : l2.flatten = true)
+    (s : Stack (f2 * h2 * w2) k) (hv : s.Valid)
+    (hl : n.layers = [.conv l0] ++ (blocks.map (convLink (h := h) (w := w))).map (·.l) ++ (.conv l2 :: s.layers))
+    (hc : n.connect = tbl.map (shift 1))
+    (hacc : n.skipaccumulation = .add) (hlb : n.loopbacks = [])
+    (hkeys : (tbl.map Prod.fst).Nodup) (hbd : ∀ e ∈ tbl, e.2 ≤ e.1 ∧ e.1 < blocks.length)
+    (x : V (I3 c0 h0 w0)) (ℓ : Vec k → ℝ) (g : Vec k) :
+    let N := dagNet (blocks.map (convLink (h := h) (w := w))) tbl
+    let y := convFn l0 a0 K0 h0 w0 h w x
+    let F := fun z : V (I3 c0 h0 w0) =>
+      s.net.fwd (flat (convFn l2 a2 K2 h w h2 w2 (SkipDag.U N blocks.length (convFn l0 a0 K0 h0 w0 h w z))))
+    (∀ i, NoKink a0 (pre l0 K0 h0 w0 h w x i)) →
+    (∀ (j : Nat) q, blocks[j]? = some q → ∀ i, NoKink q.2.1 (pre q.1 q.2.2 h w h w (SkipDag.P N j y) i)) →
+    (∀ i, NoKink a2 (pre l2 K2 h w h2 w2 (SkipDag.U N blocks.length y) i)) →
+    s.NoKinks (flat (convFn l2 a2 K2 h w h2 w2 (SkipDag.U N blocks.length y))) →
+    IsGrad ℓ (F x) g →
+    ∃ t ws bs gs γ,
+      n.forward (T3 x) = .ok t ∧ t.act.getLast? = some (vecT (F x)) ∧
+      n.backward (vecT g) t = .ok (ws, bs, gs) ∧ gs.getLast? = some (T3 γ) ∧ IsGrad (ℓ ∘ F) x γ := by
+  intro N y F hk0 hkb hk2 hks hg
+  obtain ⟨hkf, _, _, _, hoh⟩ := hl0.pos
+  let head := consConv (oh := h) (ow := w) l0 a0 K0 h0 w0 (Chain.nil (iVol f h w) (eVol f h w))
+  let tail := consConvFlat (oh := h2) (ow := w2) l2 a2 K2 h w (stackChain s)
+  have hyy : (gnet head).fwd x = y := rfl
+  have hF : ∀ z, dagFn head (blocks.map (convLink (h := h) (w := w))) tbl tail z = F z := by
+    intro z
+    simp only [dagFn, head, tail, consConv, consConvFlat, gnet, GNet.fwd, stack_gnet_fwd, F, N, List.length_map]
+  have hnet : IsDagNet head (blocks.map (convLink (h := h) (w := w))) tbl tail n := by
+    refine ⟨?_, ?_, hacc, hlb, hkeys, ?_⟩
+    · rw [hl]; simp [LayerChain.layers, head, tail, consConv, consConvFlat, stackChain_layers]
+    · rw [hc]; simp [LayerChain.layers, head, consConv]
+    · simpa using hbd
+  have hget : ∀ (j : Nat) (lk : Link (iVol f h w) (eVol f h w)), (blocks.map (convLink (h := h) (w := w)))[j]? = some lk →
+      ∃ q, blocks[j]? = some q ∧ lk = convLink q := by
+    intro j lk hlk
+    rw [List.getElem?_map] at hlk
+    cases hq : blocks[j]? with
+    | none => rw [hq] at hlk; cases hlk
+    | some q => rw [hq] at hlk; simp only [Option.map_some, Option.some.injEq] at hlk; exact ⟨q, rfl, hlk.symm⟩
+  have r0 := real_conv l0 a0 K0 hl0 ha0 hf0 x
+  have r2 := real_conv_flat l2 a2 K2 hl2 ha2 hf2 (SkipDag.U N blocks.length y)
+  have key := dag_network_gradient head (blocks.map (convLink (h := h) (w := w))) tbl tail n hnet (encAdd_vol f h w hkf hoh) x
+  have := key
+    (show _ ∧ _ ∧ _ from ⟨r0.1, r0.2, trivial⟩)
+    (fun j lk hlk => by
+      obtain ⟨q, hq, rfl⟩ := hget j lk hlk
+      have hb := hbl q (List.mem_of_getElem? hq)
+      exact convLink_real q hb.1 hb.2.1 hb.2.2 _)
+    (by
+      rw [hyy, List.length_map]
+      exact (show _ ∧ _ ∧ _ from ⟨r2.1, r2.2, stackChain_real s _ hv⟩))
+    (show _ ∧ _ from ⟨vjp_conv l0 a0 K0 hl0 ha0 x hk0, trivial⟩)
+    (fun j lk hlk => by
+      obtain ⟨q, hq, rfl⟩ := hget j lk hlk
+      have hb := hbl q (List.mem_of_getElem? hq)
+      rw [hyy]
+      exact convLink_vjp q hb.1 hb.2.1 _ (hkb j q hq))
+    (by
+      rw [hyy, List.length_map]
+      exact (show _ ∧ _ from ⟨vjp_conv_flat l2 a2 K2 hl2 ha2 _ hk2, stackChain_ok s _ hv hks⟩))
+    ℓ g (by rw [hF]; exact hg)
+  rw [funext hF] at this
+  obtain ⟨t, ws, bs, gs, γ, h1, h2, h3, h4, h5, _⟩ := this
+  exact ⟨t, ws, bs, gs, γ, h1, h2, h3, h4, h5⟩
+
+open LayerChain SkipWalk SkipNet VJP ChainLinks DenseStack DenseBridge in
+/-- **instance: every weight matrix of a residual perceptron** — in the setting of `resnet_mlp_gradient`, the
+    weight gradient `Network.backward` records for the block at position `c'` (walk position
+    `s3.layers.length + (blocks.length - (c'+1))`, the walk goes from the last layer to the first) is, entry by
+    entry, the partial derivative of the objective with respect to that entry of the block's weight matrix —
+    for ANY table of additive skip connections among the blocks -/
+theorem resnet_mlp_weight_gradient {n0 m k : ℕ} (n : Network ℝ) (s1 : Stack n0 m)
+    (blocks : List (Act × V (Fin m × Fin m) × Vec m)) (tbl : List (Nat × Nat)) (s3 : Stack m k)
+    (hl : n.layers = s1.layers ++ (blocks.map denseLink).map (·.l) ++ s3.layers)
+    (hc : n.connect = tbl.map (shift s1.layers.length))
+    (hacc : n.skipaccumulation = .add) (hlb : n.loopbacks = [])
+    (hkeys : (tbl.map Prod.fst).Nodup) (hbd : ∀ e ∈ tbl, e.2 ≤ e.1 ∧ e.1 < blocks.length)
+    (hv1 : s1.Valid) (hvb : ∀ q ∈ blocks, q.1 ≠ .softmax) (hm : 0 < m) (hv3 : s3.Valid) (x : Vec n0)
+    (ℓ : Vec k → ℝ) (g : Vec k)
+    (c' : Nat) (a : Act) (W : V (Fin m × Fin m)) (b : Vec m) (hq : blocks[c']? = some (a, W, b)) :
+    let N := dagNet (blocks.map denseLink) tbl
+    let y := s1.net.fwd x
+    let F := fun z : Vec n0 => s3.net.fwd (SkipDag.U N blocks.length (s1.net.fwd z))
+    let lay := fun W' : V (Fin m × Fin m) => denseFn (Act.f a) W' b (SkipDag.P N c' y)
+    let bθ := fun δ : Vec m => weightGrad (delta (Act.df a) (densePre W b (SkipDag.P N c' y)) δ) (SkipDag.P N c' y)
+    let FW := fun W' : V (Fin m × Fin m) => s3.net.fwd (SkipDagP.U (SkipDagP.paramNet N y c' lay bθ) blocks.length W')
+    s1.NoKinks x →
+    (∀ (j : Nat) q, blocks[j]? = some q → ∀ i, NoKink q.1 (densePre q.2.1 q.2.2 (SkipDag.P N j y) i)) →
+    s3.NoKinks (SkipDag.U N blocks.length y) →
+    IsGrad ℓ (F x) g →
+    ∃ t ws bs gs ω,
+      n.forward (vecT x) = .ok t ∧ n.backward (vecT g) t = .ok (ws, bs, gs) ∧
+      ws[s3.layers.length + (blocks.length - (c' + 1))]? = some (.one (matT ω)) ∧
+      FW W = F x ∧
+      ∀ p, HasDerivAt (fun r => ℓ (FW (Function.update W p r))) (ω p) (W p) := by
+  intro N y F lay bθ FW hk1 hkb hk3 hg
+  have hcl : c' < blocks.length := by
+    rcases Nat.lt_or_ge c' blocks.length with h1 | h1
+    · exact h1
+    · rw [List.getElem?_eq_none h1] at hq; cases hq
+  have hy : (gnet (stackChain s1)).fwd x = y := stack_gnet_fwd s1 x
+  have hF : ∀ z, dagFn (stackChain s1) (blocks.map denseLink) tbl (stackChain s3) z = F z := by
+    intro z
+    simp only [dagFn, stack_gnet_fwd, F, N, List.length_map]
+  have hnet : IsDagNet (stackChain s1) (blocks.map denseLink) tbl (stackChain s3) n := by
+    refine ⟨?_, ?_, hacc, hlb, hkeys, ?_⟩
+    · rw [hl]; simp [stackChain_layers]
+    · rw [hc]; simp [stackChain_layers]
+    · simpa using hbd
+  have hget : ∀ (j : Nat) (lk : Link (iVec m) (eVec m)), (blocks.map denseLink)[j]? = some lk → ∃ q, blocks[j]? = some q ∧ lk = denseLink q := by
+    intro j lk hlk
+    rw [List.getElem?_map] at hlk
+    cases hq' : blocks[j]? with
+    | none => rw [hq'] at hlk; cases hlk
+    | some q => rw [hq'] at hlk; simp only [Option.map_some, Option.some.injEq] at hlk; exact ⟨q, rfl, hlk.symm⟩
+  have hb : ∀ j (lk : Link (iVec m) (eVec m)), (blocks.map denseLink)[j]? = some lk →
+      IsVJP lk.f (SkipDag.P N j ((gnet (stackChain s1)).fwd x)) (lk.b (SkipDag.P N j ((gnet (stackChain s1)).fwd x))) := by
+    intro j lk hlk
+    obtain ⟨q, hq', rfl⟩ := hget j lk hlk
+    rw [hy]
+    exact denseLink_vjp q (hvb q (List.mem_of_getElem? hq')) _ (hkb j q hq')
+  have ht : (gnet (stackChain s3)).Ok (SkipDag.U N (blocks.map denseLink).length ((gnet (stackChain s1)).fwd x)) := by
+    rw [hy, List.length_map]; exact stackChain_ok s3 _ hv3 hk3
+  obtain ⟨t, ws, bs, gs, γ, h1, _, h3, _, _, hw⟩ :=
+    dag_network_gradient (stackChain s1) (blocks.map denseLink) tbl (stackChain s3) n hnet (encAdd_vec m) x
+    (stackChain_real s1 x hv1)
+    (fun j lk hlk => by
+      obtain ⟨q, hq', rfl⟩ := hget j lk hlk
+      exact denseLink_real q (hvb q (List.mem_of_getElem? hq')) hm _)
+    (by rw [hy, List.length_map]; exact stackChain_real s3 _ hv3)
+    (stackChain_ok s1 x hv1 hk1) hb ht ℓ g (by rw [hF]; exact hg)
+  have hlk : (blocks.map denseLink)[c']? = some (denseLink (a, W, b)) := by
+    rw [List.getElem?_map, hq]; rfl
+  have hidx : (blocks.map denseLink).length - ((blocks.length - (c' + 1)) + 1) = c' := by
+    rw [List.length_map]; omega
+  have hwc := (hw (blocks.length - (c' + 1)) (denseLink (a, W, b)) (by rw [List.length_map]; omega) (by rw [hidx]; exact hlk)).1
+  rw [hidx, stackChain_layers, hy] at hwc
+  have hd : ∀ i, HasDerivAt (Act.f a) (Act.df a (densePre W b (SkipDag.P N c' y) i)) (densePre W b (SkipDag.P N c' y) i) :=
+    fun i => DenseStack.act_hasDerivAt a (hvb _ (List.mem_of_getElem? hq)) _ (hkb c' _ hq i)
+  obtain ⟨hval, hgrad⟩ := dag_parameter_gradient (stackChain s1) (blocks.map denseLink) tbl (stackChain s3) n hnet x hb ht c'
+    (by rw [List.length_map]; exact hcl) (denseLink (a, W, b)) hlk lay bθ W (by rw [hy]; rfl)
+    (dense_vjp_weights (Act.f a) (Act.df a) W b (SkipDag.P N c' y) hd) ℓ g (by rw [hF]; exact hg)
+  have hfun : dagParamFn (stackChain s1) (blocks.map denseLink) tbl (stackChain s3) c' lay bθ x = FW := by
+    funext W'
+    simp only [dagParamFn, FW, stack_gnet_fwd, hy, List.length_map, N]
+  rw [hfun] at hval hgrad
+  rw [List.length_map] at hgrad
+  refine ⟨t, ws, bs, gs, _, h1, h3, hwc, ?_, fun p => hgrad.partial p⟩
+  rw [hval, hF]
 
 end C16
